@@ -18,8 +18,14 @@ func vIxnName(tag string) string {
 	if verifrt.Bool(tag + ".wild") {
 		return structs.WildcardSpecifier
 	}
+	return vExactName(tag)
+}
+
+func vExactName(tag string) string {
 	n := verifrt.StrN(tag, 1)
 	verifrt.Assume(n != structs.WildcardSpecifier)
+	// config entry names are indexed case-insensitively: names are lower-case ASCII here
+	verifrt.Assume(n[0] < 0x80 && !(n[0] >= 'A' && n[0] <= 'Z'))
 	return n
 }
 
